@@ -54,7 +54,7 @@ def sites():
 def sh(cmd, cwd=None, timeout=3600, env=None):
     e = dict(os.environ, CARGO_NET_OFFLINE="true")
     if env: e.update(env)
-    r = subprocess.run(cmd, shell=True, cwd=cwd, env=e, text=True, capture_output=True, timeout=timeout)
+    r = subprocess.run(["bash", "-c", cmd], cwd=cwd, env=e, text=True, capture_output=True, timeout=timeout)
     return r.returncode, r.stdout + r.stderr
 
 def checks_for(rel):
@@ -71,6 +71,13 @@ def run(slot, n_slots, sample, seed):
     sh(f"git -C {REPO} worktree remove --force {wt}"); shutil.rmtree(wt, ignore_errors=True)
     rc, out = sh(f"git -C {REPO} worktree add --detach {wt} HEAD"); assert rc == 0, out
     tmpd = f"/tmp/opmut-tmp-{slot}"; os.makedirs(tmpd, exist_ok=True)
+    done = set()
+    for f in os.listdir("/tmp"):
+        if f.startswith("opmut-") and f.endswith(".jsonl"):
+            for l in open(os.path.join("/tmp", f)):
+                if l.strip():
+                    r = json.loads(l); done.add((r["file"], r["line"], r["col"], r["old"]))
+    mine = [s for s in mine if (s["file"], s["line"], s["col"], s["old"]) not in done]
     log = open(f"/tmp/opmut-{slot}.jsonl", "a")
     try:
         for s in mine:
@@ -84,7 +91,11 @@ def run(slot, n_slots, sample, seed):
             open(p, "w", newline="").write("\n".join(lines))
             rec = dict(s); rec["text"] = L.strip()[:160]
             t0 = time.time()
-            rc, out = sh("cargo test --workspace --no-fail-fast --offline 2>&1 | grep -E '^test result|FAILED|^error' | head -20", cwd=wt, env={"TMPDIR": tmpd}, timeout=1800)
+            # a mutant that makes a test hang is killed by the suite as well (timeout -k: the whole process group)
+            rc, out = sh("timeout -k 5 420 cargo test --workspace --no-fail-fast --offline 2>&1 | grep -E '^test result|FAILED|^error' | head -20; echo RC=${PIPESTATUS[0]}", cwd=wt, env={"TMPDIR": tmpd}, timeout=900)
+            if "RC=124" in out or "RC=137" in out:
+                out += "\nFAILED (timeout)"
+                sh("pkill -9 -f '" + wt + "/target' || true")
             ok = out.count("test result: ok") >= 3 and "FAILED" not in out and "\nerror" not in ("\n" + out)
             if "error" in out and "test result" not in out:
                 rec["suite"] = "build-failed"
